@@ -61,7 +61,7 @@ def pieceColumn (env : Env) (table : List (String × Expr)) (piece : String) : M
   | some (_, e) =>
     let r : M Val := match e with
       | .call .. | .brace .. => do
-        let (v, _) ← posOnly (evalArg env true e [] {})
+        let (v, _) ← posOnly (evalArg env e none)
         pure v
       | .subset x _ _ _ => lookupName env x.lexeme
       | .quoted t => lookupName env (String.ofList ((t.lexeme.toList.drop 1).dropLast))
